@@ -126,6 +126,16 @@ class ForkRequest(Exception):
         self.refine = refine  # optional callable(path, branch:bool) applied to each child
 
 
+class _Indet:
+    """value that differs between merged paths and could not be reconciled; any use is an error"""
+
+    def __repr__(self):
+        return "INDET"
+
+
+INDET = _Indet()
+
+
 class GoPanic(Exception):
     def __init__(self, msg):
         self.msg = msg
@@ -138,6 +148,9 @@ class ExecError(Exception):
 class TailCall:
     def __init__(self, fn, args, then=None):
         self.fn, self.args, self.then = fn, args, then
+
+
+_Dead = object()
 
 
 def wrap(v, w, signed):
@@ -163,6 +176,9 @@ class Executor:
         self.max_steps = 5_000_000
         self.call_hook = None     # optional callable(ex, path, fname, args) for call logging
         self.base_heap = {}       # heap snapshot after init (globals)
+        self.merge_funcs = set()  # functions whose symbolic branches are merged at the post-dominator
+        self.finished_aside = []  # paths that ended (panic/return) inside a merged region
+        self.merges = 0
         from . import models
         models.install(self)
 
@@ -434,9 +450,12 @@ class Executor:
             p = work.pop()
             forks = self.run(p)
             if forks:
-                work.extend(forks)
+                work.extend(f for f in forks if f is not _Dead)
             else:
                 done.append(p)
+            if self.finished_aside and not p.dstate.get("merge_stops"):
+                done.extend(self.finished_aside)
+                self.finished_aside = []
             if len(done) + len(work) > limit:
                 raise ExecError("path explosion (> %d paths)" % limit)
         return done
@@ -487,7 +506,87 @@ class Executor:
         if not kids:
             path.outcome = ("error", "both branches infeasible (inconsistent path condition)")
             return None
+        fr = path.frames[-1]
+        if len(kids) == 2 and fr.fn["name"] in self.merge_funcs:
+            J = self.prog.ipdom(fr.fn["name"]).get(fr.block, -1)
+            if J >= 0:
+                return self.fork_and_merge(path, kids, (len(path.frames), fr.fn["name"], J))
         return kids
+
+    def fork_and_merge(self, parent, kids, stop):
+        npc = len(parent.pc)
+        stopped, finished = [], []
+        for k in kids:
+            k.dstate.setdefault("merge_stops", []).append(stop)
+            for p in self.explore(k):
+                if p.outcome and p.outcome[0] == "merge-stop":
+                    p.outcome = None
+                    p.dstate["merge_stops"].pop()
+                    stopped.append(p)
+                else:
+                    if p.dstate.get("merge_stops"):
+                        p.dstate["merge_stops"].pop()
+                    finished.append(p)
+        self.finished_aside.extend(finished)
+        if not stopped:
+            return [_Dead]
+        m = stopped[0]
+        for o in stopped[1:]:
+            m = self.merge2(m, o, npc)
+        self.merges += 1
+        ms = m.dstate.get("merge_stops")
+        if ms and ms[-1] == stop:
+            # the enclosing merged region ends at the same join block
+            m.outcome = ("merge-stop", stop[2])
+        return [m]
+
+    def merge2(self, A, B, npc):
+        if len(A.frames) != len(B.frames) or any(fa.fn is not fb.fn or fa.block != fb.block or fa.ip != fb.ip for fa, fb in zip(A.frames, B.frames)):
+            raise ExecError("merge: control states differ")
+        pcA, pcB = A.pc[npc:], B.pc[npc:]
+        M = A.clone()
+        M.pc = A.pc[:npc]
+        # the merged path stands for (A's cases) or (B's cases)
+        if pcA or pcB:
+            M.pc.append(self.dom.or_conds(pcA, pcB))
+
+        def mv(a, b):
+            if a is b:
+                return a
+            if type(a) is type(b) and isinstance(a, (int, bool, str)) and a == b:
+                return a
+            if isinstance(a, (Ptr, SliceV)) or isinstance(b, (Ptr, SliceV)):
+                if isinstance(a, Ptr) and a == b:
+                    return a
+                if isinstance(a, SliceV) and isinstance(b, SliceV) and (a.obj, a.path, a.off, a.len, a.cap) == (b.obj, b.path, b.off, b.len, b.cap):
+                    return a
+                return INDET
+            if isinstance(a, tuple) and isinstance(b, tuple) and len(a) == len(b):
+                return tuple(mv(x, y) for x, y in zip(a, b))
+            if a is None and b is None:
+                return None
+            return self.dom.merge_value(self, A, B, npc, a, b)
+
+        def mc(a, b):
+            if type(a) is list and type(b) is list and len(a) == len(b):
+                return [mc(x, y) for x, y in zip(a, b)]
+            return mv(a, b)
+        for fm, fa, fb in zip(M.frames, A.frames, B.frames):
+            for k in set(fa.env) | set(fb.env):
+                if k in fa.env and k in fb.env:
+                    fm.env[k] = mv(fa.env[k], fb.env[k])
+                else:
+                    fm.env[k] = fa.env.get(k, fb.env.get(k))
+        for oid in set(A.heap) | set(B.heap):
+            if oid in A.heap and oid in B.heap:
+                M.heap[oid] = mc(A.heap[oid], B.heap[oid])
+            else:
+                M.heap[oid] = clone_cells(A.heap.get(oid, B.heap.get(oid)))
+        seen = set(A.log)
+        M.log = A.log + [e for e in B.log if e not in seen]
+        M.leaks = A.leaks + B.leaks
+        M.steps = max(A.steps, B.steps)
+        return M
 
     def truth(self, path, c):
         """decide a condition: True/False, or raise ForkRequest"""
@@ -510,6 +609,8 @@ class Executor:
         if (fr.fn["name"], target) in self.stop_blocks and len(path.frames) == 1:
             path.outcome = ("stop", target)
             return
+        ms = path.dstate.get("merge_stops")
+        hit_merge = bool(ms) and ms[-1] == (len(path.frames), fr.fn["name"], target)
         # phis
         blk = fr.fn["blocks"][target]
         instrs = blk["instrs"]
@@ -524,6 +625,8 @@ class Executor:
                 n += 1
             fr.env.update(new)
         fr.ip = n
+        if hit_merge:
+            path.outcome = ("merge-stop", target)
 
     def ret(self, path, vals):
         fr = path.frames.pop()
